@@ -218,6 +218,10 @@ func checkC06Dynamic(e *core.Env) {
 		sc := &Script{Kind: ClientStream, Handler: []Op{{Op: "gatesoft", Gate: "sent"}, {Op: "recvall"}, {Op: "send", Msg: &tpb.Message{}}}}
 		run := c.Svc.NewRun(sc, "inproc/dynamic")
 		defer c.Svc.Forget(run)
+		if i%2 == 1 {
+			// the handler receives into a generated message that still holds older content
+			run.HDest = func() *tpb.Message { return fullMessage(r) }
+		}
 		ctx, cancel := context.WithCancel(metadata.AppendToOutgoingContext(context.Background(), runKey, run.ID))
 		defer cancel()
 		st, err := c.CC.NewStream(ctx, ClientStream.StreamDesc(), ClientStream.Method())
@@ -237,6 +241,11 @@ func checkC06Dynamic(e *core.Env) {
 		st.RecvMsg(new(tpb.Message))
 		e.Eval("dynamic|stream-send", true)
 		rv := run.Rets("h", "recv")
+		if len(rv) > 0 && rv[0].Msg != nil {
+			if m := rv[0].Msg; m.Count != 7 || m.Code != 0 || m.DelayMillis != 0 || len(m.Headers) != 0 || len(m.Trailers) != 0 || len(m.ErrorDetails) != 0 {
+				e.Violate("inproc/default/dynamic/residue-or-loss", "a dynamic message was received into a generated message that held older content: the result is not the message sent: "+msgDesc(m), map[string]any{"sent": "payload + count=7", "handler_saw": msgDesc(m)})
+			}
+		}
 		if len(rv) > 0 && rv[0].Msg != nil && string(rv[0].Msg.Payload) != want {
 			e.Violate("inproc/default/dynamic/mutation-visible", "caller overwrote the bytes of a dynamic message after SendMsg returned; the handler received the overwritten bytes", map[string]any{"sent": want, "handler_saw": fmt.Sprintf("%q", rv[0].Msg.Payload)})
 		}
